@@ -303,3 +303,206 @@ def scale_expr(node):
     if isinstance(node, ast.BinOp) and isinstance(node.op, ast.Mult):
         return "%s * %s" % (scale_expr(node.left), scale_expr(node.right))
     _fail(node, "unsupported scaling expression %s" % ast.dump(node))
+
+
+# =================================================================================================================
+# calculate_admt: the coefficient formulas, translated into expressions over the model's jet (Model/C20_Admt.v)
+# =================================================================================================================
+MATVEC = {("Dx", "psi_at_voxels"): "px", ("Dy", "psi_at_voxels"): "py", ("Dxx", "psi_at_voxels"): "pxx",
+          ("Dxy", "psi_at_voxels"): "pxy", ("Dyy", "psi_at_voxels"): "pyy",
+          ("Dx", "Dperp"): "dperp_x", ("Dy", "Dperp"): "dperp_y", ("Dx", "Dpar"): "dpar_x", ("Dy", "Dpar"): "dpar_y"}
+OPKEYS = {"Dx": "ODx", "Dy": "ODy", "Dxx": "ODxx", "Dxy": "ODxy", "Dyy": "ODyy"}
+COEFFS = ["cx", "cy", "cxx", "cyy", "cxy"]
+
+
+class AdmtTranslator:
+    def __init__(self):
+        self.ops = {}        # local name -> operator key ("Dx" ...), from derivative_operators["Dx"]
+        self.env = {"voxel_radii": "rad j", "Dperp": "dperp j", "Dpar": "dpar j"}    # python name -> Coq expression over j
+        self.defs = []       # (coq name, coq body) in source order
+        self.diag = set()
+        self.assembly = None
+        self.scale = None
+        self.dpar_literal = None
+        self.dperp_expr = None
+
+    def expr(self, node):
+        """elementwise numpy expression -> Coq Q expression (fully parenthesised)"""
+        if isinstance(node, ast.Name):
+            if node.id not in self.env:
+                _fail(node, "calculate_admt: unknown name %s in a coefficient formula" % node.id)
+            return self.env[node.id]
+        if isinstance(node, ast.Constant) and isinstance(node.value, (int, float)) and not isinstance(node.value, bool):
+            return qcoq(Fraction(node.value))
+        if isinstance(node, ast.UnaryOp) and isinstance(node.op, ast.USub):
+            return "(- %s)" % self.expr(node.operand)
+        if isinstance(node, ast.BinOp):
+            if isinstance(node.op, ast.Pow):
+                if not (isinstance(node.right, ast.Constant) and node.right.value == 2):
+                    _fail(node, "calculate_admt: only squares are supported")
+                b = self.expr(node.left)
+                return "(%s * %s)" % (b, b)
+            if isinstance(node.op, ast.MatMult):
+                key = self.matvec(node)
+                return "%s j" % key
+            sym = {ast.Add: "+", ast.Sub: "-", ast.Mult: "*", ast.Div: "/"}.get(type(node.op))
+            if sym is None:
+                _fail(node, "calculate_admt: unsupported operator %s" % type(node.op).__name__)
+            return "(%s %s %s)" % (self.expr(node.left), sym, self.expr(node.right))
+        _fail(node, "calculate_admt: unsupported expression %s" % ast.dump(node)[:120])
+
+    def matvec(self, node):
+        if not (isinstance(node.left, ast.Name) and isinstance(node.right, ast.Name) and node.left.id in self.ops):
+            _fail(node, "calculate_admt: unsupported matrix product")
+        k = (self.ops[node.left.id], node.right.id)
+        if k not in MATVEC:
+            _fail(node, "calculate_admt: matrix product %s @ %s has no counterpart in the model's jet" % k)
+        return MATVEC[k]
+
+    def statement(self, st):
+        if isinstance(st, ast.Expr) and isinstance(st.value, ast.Constant) and isinstance(st.value.value, str):
+            return      # docstring
+        if isinstance(st, ast.Return):
+            if not (isinstance(st.value, ast.Name) and st.value.id == "admt_operator"):
+                _fail(st, "calculate_admt does not return admt_operator")
+            return
+        if isinstance(st, ast.AugAssign):
+            if not (isinstance(st.target, ast.Name) and st.target.id == "admt_operator" and isinstance(st.op, ast.Mult)):
+                _fail(st, "unsupported augmented assignment")
+            v = st.value
+            if not (isinstance(v, ast.Call) and isinstance(v.func, ast.Attribute) and v.func.attr == "sqrt" and len(v.args) == 1
+                    and isinstance(v.args[0], ast.BinOp) and isinstance(v.args[0].op, ast.Mult)
+                    and sorted(n.id for n in (v.args[0].left, v.args[0].right) if isinstance(n, ast.Name)) == ["dx", "dy"]):
+                _fail(st, "the operator is not scaled by np.sqrt(dx * dy)")
+            if self.assembly is None or self.scale is not None:
+                _fail(st, "scaling before assembly / twice")
+            self.scale = "sqrt(dx*dy)"
+            return
+        if not (isinstance(st, ast.Assign) and len(st.targets) == 1 and isinstance(st.targets[0], ast.Name)):
+            _fail(st, "calculate_admt: unsupported statement %s" % type(st).__name__)
+        name, v = st.targets[0].id, st.value
+        # Dx = derivative_operators["Dx"]
+        if isinstance(v, ast.Subscript) and isinstance(v.value, ast.Name) and v.value.id == "derivative_operators":
+            key = v.slice.value if isinstance(v.slice, ast.Constant) else None
+            if key not in OPKEYS or name != key:
+                _fail(st, "unexpected operator look-up")
+            self.ops[name] = key
+            return
+        # Dpar = np.full(psi_at_voxels.shape, 1)
+        if name == "Dpar":
+            if not (isinstance(v, ast.Call) and isinstance(v.func, ast.Attribute) and v.func.attr == "full" and len(v.args) == 2
+                    and isinstance(v.args[1], ast.Constant)):
+                _fail(st, "Dpar is not np.full(shape, <literal>)")
+            self.dpar_literal = Fraction(v.args[1].value)
+            return
+        if name == "Dperp":
+            if not (isinstance(v, ast.BinOp) and isinstance(v.op, ast.Div) and isinstance(v.left, ast.Name) and v.left.id == "Dpar"
+                    and isinstance(v.right, ast.Name) and v.right.id == "anisotropy"):
+                _fail(st, "Dperp is not Dpar / anisotropy")
+            self.dperp_expr = "Dpar / anisotropy"
+            return
+        # cx = np.diag(cx)
+        if isinstance(v, ast.Call) and isinstance(v.func, ast.Attribute) and v.func.attr == "diag":
+            if not (len(v.args) == 1 and isinstance(v.args[0], ast.Name) and v.args[0].id == name and name in COEFFS):
+                _fail(st, "unsupported np.diag use")
+            self.diag.add(name)
+            return
+        if name == "admt_operator":
+            self.assembly = self.assemble(v)
+            return
+        # a jet component: dpsidx = Dx @ psi_at_voxels
+        if isinstance(v, ast.BinOp) and isinstance(v.op, ast.MatMult):
+            self.env[name] = "%s j" % self.matvec(v)
+            return
+        # an elementwise formula
+        body = self.expr(v)
+        coq = "src_" + name
+        self.defs.append((coq, body))
+        self.env[name] = "%s j" % coq
+
+    def assemble(self, node):
+        """cx @ Dx + cy @ Dy + cxx @ Dxx + 2 * cxy @ Dxy + cyy @ Dyy -> [(factor, coeff name, operator key)]"""
+        terms = []
+
+        def walk(n):
+            if isinstance(n, ast.BinOp) and isinstance(n.op, ast.Add):
+                walk(n.left)
+                walk(n.right)
+                return
+            fac = Fraction(1)
+            # 2 * cxy @ Dxy parses as (2 * cxy) @ Dxy
+            if isinstance(n, ast.BinOp) and isinstance(n.op, ast.MatMult) and isinstance(n.right, ast.Name) and n.right.id in self.ops:
+                left = n.left
+                if isinstance(left, ast.BinOp) and isinstance(left.op, ast.Mult) and isinstance(left.left, ast.Constant):
+                    fac = Fraction(left.left.value)
+                    left = left.right
+                if isinstance(left, ast.Name) and left.id in COEFFS and left.id in self.diag:
+                    terms.append((fac, left.id, self.ops[n.right.id]))
+                    return
+            _fail(n, "unsupported term in the assembly of the ADMT operator")
+        walk(node)
+        return terms
+
+
+def translate_admt(repo):
+    path = os.path.join(repo, "cherab", "tools", "inversions", "admt_utils.py")
+    tree = ast.parse(open(path).read())
+    fn = [n for n in tree.body if isinstance(n, ast.FunctionDef) and n.name == "calculate_admt"]
+    if len(fn) != 1:
+        raise TranslateError("calculate_admt not found exactly once")
+    fn = fn[0]
+    args = [a.arg for a in fn.args.args]
+    if args != ["voxel_radii", "derivative_operators", "psi_at_voxels", "dx", "dy", "anisotropy"]:
+        raise TranslateError("calculate_admt: unexpected parameter list %r" % args)
+    tr = AdmtTranslator()
+    for st in fn.body:
+        tr.statement(st)
+    if tr.dpar_literal is None or tr.dperp_expr is None or tr.assembly is None or tr.scale is None or tr.diag != set(COEFFS):
+        raise TranslateError("calculate_admt: Dpar / Dperp / diag / assembly / scaling not all found")
+    if sorted(tr.ops) != sorted(OPKEYS):
+        raise TranslateError("calculate_admt: operators looked up: %r" % sorted(tr.ops))
+    names = [n for n, _ in tr.defs]
+    for c in COEFFS + ["normalisation"]:
+        if "src_" + c not in names:
+            raise TranslateError("calculate_admt: coefficient %s is not defined by an elementwise formula" % c)
+    out = ["(* generated by harness/c20_translate.py from calculate_admt -- do not edit *)",
+           "Require Import Cherab.Common.Qx.",
+           "Require Import Cherab.Model.C20_Stencil Cherab.Model.C20_Admt Cherab.Proofs.C20_Source.",
+           "Open Scope Q_scope.", ""]
+    for n, b in tr.defs:
+        out.append("Definition %s (j : jet) : Q := %s." % (n, b))
+    out.append("")
+    out.append("Definition src_dpar : Q := %s." % qcoq(tr.dpar_literal))
+    out.append("Definition src_dperp (aniso : Q) : Q := src_dpar / aniso.")
+    out.append("Lemma src_diffusivities_are_model : forall psi aniso rad0 nx ny ix iy dx dy,\n"
+               "  dpar (jet_of psi aniso rad0 nx ny ix iy dx dy) = src_dpar /\\ dperp (jet_of psi aniso rad0 nx ny ix iy dx dy) = src_dperp aniso.\n"
+               "Proof. intros; split; reflexivity. Qed.")
+    model = {"normalisation": "normalisation", "cxx": "c_xx", "cyy": "c_yy", "cxy": "c_xy", "cx": "c_x", "cy": "c_y",
+             "ddiff_term_cx": "ddiff_term_cx", "dnorm_term_cx": "dnorm_term_cx", "ddiff_term_cy": "ddiff_term_cy",
+             "dnorm_term_cy": "dnorm_term_cy", "toroidal_term_cx": "toroidal_term_cx", "toroidal_term_cy": "toroidal_term_cy"}
+    done = []
+    out.append("Ltac unfold_all := cbv beta delta [%s c_x c_y c_xx c_yy c_xy ddiff_term_cx dnorm_term_cx ddiff_term_cy dnorm_term_cy "
+               "toroidal_term_cx toroidal_term_cy normalisation] in *." % " ".join(n for n, _ in tr.defs))
+    out.append("Ltac side_cond Hn Hr := try assumption; let E := fresh in intro E; first [ apply Hn; rewrite <- E; ring | apply Hr; rewrite <- E; ring ].")
+    out.append("Ltac admt_tie Hn Hr := unfold_all; field; repeat split; side_cond Hn Hr.")
+    for n, _ in tr.defs:
+        base = n[4:]
+        if base not in model:
+            raise TranslateError("calculate_admt: formula %s has no counterpart in the model" % base)
+        prev = " ".join("rewrite ?%s_is_model by assumption;" % d for d in done)
+        out.append("Lemma %s_is_model : forall j, ~ normalisation j == 0 -> ~ rad j == 0 -> %s j == %s j.\n"
+                   "Proof. intros j Hn Hr; first [ reflexivity | admt_tie Hn Hr ]. Qed." % (n, n, model[base]))
+        done.append(n)
+    terms = " + ".join("%ssrc_%s j * op_row %s nx ny ix iy dx dy a b" % ("" if f == 1 else "%s * " % qcoq(f), c, OPKEYS[o])
+                       for f, c, o in tr.assembly)
+    out.append("")
+    out.append("Definition src_admt_row (j : jet) (nx ny ix iy : Z) (dx dy s : Q) : stencil :=\n  fun a b => (%s) * s." % terms)
+    out.append("Lemma src_admt_row_is_model : forall j nx ny ix iy dx dy s a b, ~ normalisation j == 0 -> ~ rad j == 0 ->\n"
+               "  src_admt_row j nx ny ix iy dx dy s a b == admt_row j nx ny ix iy dx dy s a b.\n"
+               "Proof.\n  intros j nx ny ix iy dx dy s a b Hn Hr. unfold src_admt_row, admt_row.\n"
+               "  rewrite (src_cx_is_model j Hn Hr), (src_cy_is_model j Hn Hr), (src_cxx_is_model j Hn Hr), (src_cxy_is_model j Hn Hr), "
+               "(src_cyy_is_model j Hn Hr). ring.\nQed.")
+    out.append("Print Assumptions src_admt_row_is_model.")
+    summary = {"formulas": [n[4:] for n, _ in tr.defs], "jet_components": {k: v for k, v in tr.env.items() if not v.startswith("src_")},
+               "assembly": [[str(f), c, o] for f, c, o in tr.assembly], "scaling": tr.scale, "Dpar": str(tr.dpar_literal), "Dperp": tr.dperp_expr}
+    return "\n".join(out) + "\n", summary
